@@ -47,10 +47,14 @@ class write_float:
     types = dict(self="BinaryEncoder", datum="py")
     requires = lambda self, datum: (
         self._fo.pos == len(self._fo.data)
-        and ((isinstance(datum, float) and S.f_fits_single(datum))
-             or (isinstance(datum, int) and not isinstance(datum, bool)
-                 and S.f_int_fits_double(datum) and S.f_fits_single(S.f_of_int(datum)))))
+        and (isinstance(datum, float) or (isinstance(datum, int) and not isinstance(datum, bool))))
     modifies = ["self._fo"]
+    # a number too large for IEEE single precision: struct raises, nothing is written
+    raises = [R("OverflowError",
+                when=lambda self, datum: not ((isinstance(datum, float) and S.f_fits_single(datum))
+                                              or (isinstance(datum, int) and S.f_int_fits_double(datum)
+                                                  and S.f_fits_single(S.f_of_int(datum)))),
+                ensures=lambda self: self._fo.data == old.self._fo.data and self._fo.pos == old.self._fo.pos)]
     ensures = lambda self, datum, result: (
         self._fo.data == old.self._fo.data + S.float_bytes(S.num_to_float(datum))
         and self._fo.pos == len(self._fo.data) and result is None)
@@ -61,9 +65,11 @@ class write_double:
     types = dict(self="BinaryEncoder", datum="py")
     requires = lambda self, datum: (
         self._fo.pos == len(self._fo.data)
-        and (isinstance(datum, float)
-             or (isinstance(datum, int) and not isinstance(datum, bool) and S.f_int_fits_double(datum))))
+        and (isinstance(datum, float) or (isinstance(datum, int) and not isinstance(datum, bool))))
     modifies = ["self._fo"]
+    raises = [R("OverflowError",
+                when=lambda self, datum: isinstance(datum, int) and not S.f_int_fits_double(datum),
+                ensures=lambda self: self._fo.data == old.self._fo.data and self._fo.pos == old.self._fo.pos)]
     ensures = lambda self, datum, result: (
         self._fo.data == old.self._fo.data + S.double_bytes(S.num_to_float(datum))
         and self._fo.pos == len(self._fo.data) and result is None)
